@@ -203,7 +203,7 @@ End FlatShape.
 Lemma fsl_tuple : forall d l post rest k new cur,
   rest <> [] -> (k + length rest = S l)%nat ->
   flat_shape_loop 0 d l (d + k) (rest ++ post) new cur
-  = new ++ [ST (cur ++ rest)] ++ post.
+  = new ++ [ST (cur ++ flat_map comps rest)] ++ post.
 Proof.
   intros d l post rest. induction rest as [|x rest IH]; intros k new cur Hne H; [contradiction|].
   simpl in H. cbn [app flat_shape_loop].
@@ -211,12 +211,12 @@ Proof.
   destruct rest as [|y rest'].
   - simpl in H.
     replace (Nat.eqb (d + k) (d + l)) with true by (symmetry; apply Nat.eqb_eq; lia).
-    cbn [app]. rewrite fsl_after by lia. rewrite <- app_assoc. reflexivity.
+    cbn [app flat_map]. rewrite fsl_after by lia. rewrite app_nil_r, <- app_assoc. reflexivity.
   - simpl in H.
     replace (Nat.eqb (d + k) (d + l)) with false by (symmetry; apply Nat.eqb_neq; lia).
     replace (S (d + k)) with (d + S k)%nat by lia.
     rewrite IH by (first [discriminate | simpl; lia]).
-    rewrite <- app_assoc. reflexivity.
+    cbn [flat_map]. rewrite <- !app_assoc. reflexivity.
 Qed.
 
 Lemma fsl_pair : forall d l post rest k new cur,
@@ -349,7 +349,6 @@ Proof.
   apply andb_true_iff in Hx; destruct Hx as [Hx Hlin].
   apply andb_true_iff in Hx; destruct Hx as [Hx Hc0].
   apply andb_true_iff in Hx; destruct Hx as [Hx Habs].
-  apply andb_true_iff in Hx; destruct Hx as [Hx Hrs].
   apply andb_true_iff in Hx; destruct Hx as [Hx Hc3].
   apply andb_true_iff in Hx; destruct Hx as [Hx Hc4].
   apply andb_true_iff in Hx; destruct Hx as [Hx Hc5].
